@@ -886,7 +886,7 @@ Qed.
 
 (* ---------------------------------------------------------------- coherence is preserved (for C05) *)
 Lemma wf_remove_empty_whole t : wf t -> wf (remove_empty_whole t).
-Proof. intros W. unfold remove_empty_whole, remove_empty_axis. apply wf_filter_mask. apply wf_filter_mask. exact W. Qed.
+Proof. intros W. unfold remove_empty_whole, remove_empty_axis. apply wf_filter_table. apply wf_filter_table. exact W. Qed.
 
 Theorem partition_wf t a lab ignore_none remove_empty parts :
   wf t -> partition_t t a lab ignore_none remove_empty = ROk parts -> Forall (fun p => wf (snd p)) parts.
@@ -1372,14 +1372,13 @@ Theorem remove_empty_whole_cell p o s :
   cell (remove_empty_whole p) o s = cell p o s.
 Proof.
   intros W Ho Hs. unfold remove_empty_whole, remove_empty_axis in *.
-  set (p1 := filter_mask (nonempty_mask Samp p) Samp p) in *.
-  assert (W1 : wf p1) by (apply wf_filter_mask; exact W).
-  rewrite filter_mask_cell by assumption.
+  set (p1 := filter_table (nonempty_mask Samp p) Samp p) in *.
+  assert (W1 : wf p1) by (apply wf_filter_table; exact W).
+  rewrite filter_table_cell by assumption.
   assert (Ho1 : In o (oids p1)).
-  { change (oids (filter_mask (nonempty_mask Obs p1) Obs p1)) with (select (nonempty_mask Obs p1) (oids p1)) in Ho.
-    eapply select_In. exact Ho. }
-  assert (Hs1 : In s (sids p1)) by exact Hs.
-  apply filter_mask_cell; assumption.
+  { rewrite ft_oids_obs in Ho. eapply select_In. exact Ho. }
+  assert (Hs1 : In s (sids p1)) by (rewrite ft_sids_obs in Hs; exact Hs).
+  apply filter_table_cell; assumption.
 Qed.
 
 Theorem remove_empty_whole_ids p :
